@@ -209,13 +209,48 @@ func (r *Run) ViolationN(attrs map[string]string, size int, detail any, n int64)
 	}
 }
 
+var (
+	listMu    sync.Mutex
+	listCache = map[string]map[string]bool{}
+)
+
+func inList(file, v string) bool {
+	listMu.Lock()
+	defer listMu.Unlock()
+	set, ok := listCache[file]
+	if !ok {
+		set = map[string]bool{}
+		home := os.Getenv("VERIF_HOME")
+		if home == "" {
+			home = "/verif"
+		}
+		var items []string
+		if b, err := os.ReadFile(filepath.Join(home, file)); err == nil && json.Unmarshal(b, &items) == nil {
+			for _, it := range items {
+				set[it] = true
+			}
+		} else {
+			fmt.Fprintf(os.Stderr, "known finding list %s cannot be read\n", file)
+			os.Exit(2)
+		}
+		listCache[file] = set
+	}
+	return set[v]
+}
+
 func matches(m, attrs map[string]string) bool {
 	for k, want := range m {
 		got, ok := attrs[k]
 		if !ok {
 			return false
 		}
-		if strings.HasPrefix(want, "re:") {
+		if strings.HasPrefix(want, "list:") {
+			// the attribute must be a member of the JSON string array in the named file under /verif
+			// (a committed enumeration of the specific failing cases of one finding)
+			if !inList(want[5:], got) {
+				return false
+			}
+		} else if strings.HasPrefix(want, "re:") {
 			re, err := regexp.Compile("^(?:" + want[3:] + ")$")
 			if err != nil || !re.MatchString(got) {
 				return false
